@@ -1,4 +1,6 @@
 """C19 — chat prompt keeps the newest messages that fit, system messages, each image once."""
+import os
+
 from vlib import core
 from vlib.registry import COMMON_NOTE
 
@@ -14,7 +16,8 @@ REGISTRATION = {
             "longest fitting suffix), images returned are exactly the retained messages' images with id = position "
             "and each tagged exactly once, images of dropped messages are not sent. System-message retention is "
             "proved for the repaired variant and under an explicit guard for the pinned code (finding F4). The real "
-            "chatPrompt is run on generated conversations with four real templates and two tokenizers; the oracle "
+            "chatPrompt is run on generated conversations with four harness templates, six templates shipped in "
+            "/repo/template and two tokenizers; the oracle "
             "must reproduce tokenizer-call count, images, rewritten contents and the prompt string (L1) and every "
             "clause of the property is evaluated on the real prompt (L2).",
     "design_ref": "DESIGN.md §5 C19, §6 F4",
@@ -47,7 +50,7 @@ OVERLAY = {"server/zz_verif_c19_test.go": "server/zz_verif_c19_test.go"}
 
 def run(ctx):
     ctx.lean_check(MODULES, THEOREMS)
-    env = {"VERIF_N": ctx.scale(6000, 150000)}
+    env = {"VERIF_N": ctx.scale(6000, 150000), "VERIF_CORPUS": os.path.join(core.ROOT, "corpus", "C19")}
     if ctx.replay:
         env["VERIF_REPLAY"] = ctx.replay_line_file()
     rc, out, outdir = ctx.go_test("./server/", OVERLAY, "^TestVerifC19$", env=env)
@@ -66,8 +69,9 @@ def run(ctx):
     return ctx.finish(
         level="proof",
         rule="seeded random conversations (0-9 messages; roles system/user/assistant/tool/other in any order; "
-             "empty, multi-line and placeholder-bearing contents; 0-3 images per message) x 4 real templates x 2 "
-             "tokenizers x {plain, projector, mllama} x context lengths aimed at every measured total +-1; "
+             "empty, multi-line and placeholder-bearing contents; 0-3 images per message) x 4 harness templates "
+             "(system-header messages style, legacy, default, in-place messages style; also rendered by the oracle) "
+             "and 6 templates shipped in /repo/template x 2 tokenizers x {plain, projector, mllama} x context lengths aimed at every measured total +-1; "
              "distinct = distinct oracle command lines",
         explanation="Lean theorems about the model of chatPrompt for all conversations/limits/cost functions; model "
                     "tied to the real chatPrompt + template.Execute by exact comparison of tokenizer calls, images, "
